@@ -38,7 +38,34 @@ HISTORY = {  # what had to be strengthened before the change was caught (filled 
     "C14b": "missed at first: no worksheet had comments -> comments part + vmlDrawing relationship in either order",
     "C15b": "missed by C15 at first (no damaged archives in its histories) -> damaged inputs of every kind; also caught by C09",
     "C16b": "missed at first: attachments never carried a Content-ID -> 30 % now do",
+    "C01i": "missed at first: no mutation produced a half-written embedded picture inside intact record headers -> picture_half_written (signature + first segment intact, rest filler up to the end marker)",
+    "C01j": "missed at first: the CLI was only run against an unlimited stdout and no multi-result input had a plain first and an unencodable later result -> cli-narrow mode (ASCII stdout) + ASCII-then-non-ASCII archives and mailboxes",
+    "C02i": "missed at first: RTF text never held a \\uN\\'hh escape directly followed by \\'hh characters -> words of non-ASCII letters in every mixture of \\'hh, \\uN? and \\uN\\'hh, adjacent, with an exact between-tokens claim",
+    "C03i": "missed at first: every PDF page had its own content stream -> feature shared-content-stream (one stream, per-page form XObjects; twin: one stream per page)",
+    "C03j": "missed at first: mailbox messages were text/plain only -> HTML-only and multipart/alternative messages whose plain twin is blank (space, NBSP, tab, empty)",
+    "C04j": "missed at first: the cp1252 property strings were never well-formed UTF-8 by accident -> payloads such as 'NESCAFÉ® 2024', 'CAFÉ™', 'SÃ©rie'",
+    "C05i": "missed at first: zero-length bytes payloads were rare and only to_json() of the rebuilt object was compared, which re-emits an undecoded marker dict unchanged -> binary fields compared as objects (kind + bytes), zero-length payloads frequent",
+    "C05j": "missed at first: no string exercised a constructor normalisation twice -> marker vocabulary holds padded / NUL-terminated / NBSP strings (from_json runs the constructor a second time)",
+    "C08i": "missed at first: the converse clause was only tested with each plain file on its own reader -> wrong-container look-alikes (OLE2 under OOXML/ODF names, ZIP under legacy names, PDF/RTF under Office names): must not be rejected *as encrypted*",
+    "C08j": "missed at first: the FIB flag was only set under the Word 97 signature -> also under the Word 6.0/95 signature the reader accepts",
+    "C13i": "missed at first: RTF rows always ended in a line end -> blank, CRLF or nothing at all between \\row and the next \\trowd",
+    "C13j": "missed at first: every workbook used the 1900 date system -> DATEMODE 1 as a feature (and on a fifth of the clean workbooks), dates claimed in the workbook's own system",
+    "C14i": "missed at first: every image XObject was drawn on one page only -> feature shared-image-xobject (one object on every page; twin: equal bytes in separate objects)",
+    "C14j": "missed at first: every picture relationship had its media part -> feature missing-media-part (dangling relationship in the middle; twin: at the end)",
 }
+# changes the quick tier missed when they arrived (rounds 4 and 5, from the campaign logs); what was widened is in DESIGN §19-§20
+MISSED_ON_ARRIVAL = set("""C01g C01h C02h C03g C04g C04h C05g C05h C08g C08h C09g C09h C10h C11g C12g C12h C13h C14g C14h C16g C16h C19g C07h C15g
+C01i C01j C02i C03i C03j C04j C05i C05j C06i C06j C07j C08i C08j C09j C10i C10j C11i C12i C12j C13i C13j C14i C14j C15i C16j C17j C19j""".split())
+
+
+def history_for(sid):
+    if sid in HISTORY:
+        return HISTORY[sid]
+    if sid in MISSED_ON_ARRIVAL:
+        return "missed by the quick tier as it stood when the change arrived; caught after the widening described in DESIGN §19-§20"
+    if sid[-1] in "cdef":
+        return "rounds 2-3 (13 of 40 and about a third caught on arrival; the campaign log does not keep the per-change first result): see DESIGN §19 for what was widened"
+    return "caught by the quick tier as it stood when the change arrived"
 
 
 def sh(cmd, **kw):
@@ -111,7 +138,7 @@ def main():
                           "repository_tests_with_patch": tests.group(1) if tests else None},
             "ran": f"tools/try_mutant.sh seeded/{sid}/patch.diff seeded/{sid}/demo.py quick {' '.join(checks)}  (scratch worktree of /repo HEAD {head}, VERIF_REPO redirect)",
             "caught_by": caught, "check_status": dict(status), "violation_keys": keys[:8],
-            "history": HISTORY.get(sid, "caught by the quick tier as first built"),
+            "history": history_for(sid),
         }
         json.dump(meta, open(f"{dst}/meta.json", "w"), indent=1)
         print(sid, "caught by", caught or "NOBODY", "| demo", meta["confirmed"]["demo_on_unchanged_tree_exit"], meta["confirmed"]["demo_with_patch_exit"], "| tests", meta["confirmed"]["repository_tests_with_patch"], flush=True)
